@@ -21,6 +21,7 @@ package main
 
 import (
 	"bytes"
+	"strconv"
 	"strings"
 
 	"github.com/Tnze/go-mc/nbt"
@@ -369,4 +370,162 @@ func scannerCases(o *hx.Out, corpus [][]byte) {
 		rec(nil)
 	}
 	_ = bytes.Equal
+	literalCases(o)
+}
+
+func strconvParseFloat(s string, bits int) (float64, error) { return strconv.ParseFloat(s, bits) }
+
+// ---------------------------------------------------------------- the literal classifier (parseLiteral, unquoted tokens)
+//
+// Compared with the TRANSLATED classifier (coq/Gen/Literal.v): tag type, kind of conversion (0 the token itself,
+// 1 ParseInt, 2 ParseFloat, 3 panic), width of the Go type of the value; for integers also whether the conversion
+// failed and the value (the driver evaluates ParseInt(token[:strlen], 10, bits) from the model's strlen and bits).
+// Predicates, without the model:
+//
+//	C04.literal.float-value   a float literal's value is not strconv.ParseFloat(token without its f/F/d/D suffix)
+//	C04.literal.panic-bare    parseLiteral panicked on a token made of unquoted-string characters only
+func litLine(tok []byte) string {
+	tag, val, failed, pan := nbt.VerifParseLiteral(tok)
+	if pan != "" {
+		return "0 3 0 -"
+	}
+	conv, cast, rest := 0, 0, "-"
+	switch v := val.(type) {
+	case string:
+	case int8:
+		conv, cast, rest = 1, 8, strconv_(int(v))
+	case int16:
+		conv, cast, rest = 1, 16, strconv_(int(v))
+	case int32:
+		conv, cast, rest = 1, 32, strconv_(int(v))
+	case int64:
+		conv, cast = 1, 64
+		if v == -9223372036854775808 {
+			rest = "-9223372036854775808"
+		} else {
+			rest = strconv_(int(v))
+		}
+	case float32:
+		conv, cast = 2, 32
+	case float64:
+		conv, cast = 2, 64
+	default:
+		return "? unexpected value type"
+	}
+	if conv == 1 && failed {
+		rest = "err"
+	}
+	return strconv_(int(tag)) + " " + strconv_(conv) + " " + strconv_(cast) + " " + rest
+}
+
+func litPred(o *hx.Out, tok []byte) {
+	tag, val, failed, pan := nbt.VerifParseLiteral(tok)
+	bare := len(tok) > 0
+	for _, c := range tok {
+		bare = bare && isBareByte(c)
+	}
+	if pan != "" {
+		if bare {
+			o.Fail("C04.literal.panic-bare", "token=%s panic=%s", short(tok), pan)
+		}
+		return
+	}
+	body := string(tok)
+	if n := len(body); n > 0 && strings.IndexByte("fFdD", body[n-1]) >= 0 {
+		body = body[:n-1]
+	}
+	switch v := val.(type) {
+	case float32:
+		w, err := strconvParseFloat(body, 32)
+		if tag != 5 || (err != nil) != failed || !failed && float32(w) != v && !(w != w && v != v) {
+			o.Fail("C04.literal.float-value", "token=%s tag=%d value=%v failed=%v want=%v", short(tok), tag, v, failed, float32(w))
+		}
+	case float64:
+		w, err := strconvParseFloat(body, 64)
+		if tag != 6 || (err != nil) != failed || !failed && w != v && !(w != w && v != v) {
+			o.Fail("C04.literal.float-value", "token=%s tag=%d value=%v failed=%v want=%v", short(tok), tag, v, failed, w)
+		}
+	}
+}
+
+func litCase(o *hx.Out, cat string, tok []byte) {
+	o.Case(cat, len(tok) > 1, "L "+hx.Hex(tok), "L "+litLine(tok))
+	litPred(o, tok)
+}
+
+func litBatch(o *hx.Out, cat string, alpha, prefix []byte, k int) {
+	h, n := uint32(2166136261), 0
+	var walk func(t []byte, k int)
+	walk = func(t []byte, k int) {
+		h = fnv32(h, litLine(t))
+		n++
+		litPred(o, t)
+		if k > 0 {
+			for _, c := range alpha {
+				walk(append(t[:len(t):len(t)], c), k-1)
+			}
+		}
+	}
+	walk(append([]byte{}, prefix...), k)
+	o.Case(cat, true, "Y "+hx.Hex(alpha)+" "+hx.Hex(prefix)+" "+strconv_(k), "Y "+strconv_(n)+" "+hex8(h))
+}
+
+func literalCases(o *hx.Out) {
+	r := o.R
+	for _, s := range []string{"0", "-0", "+0", "1", "-1", "127b", "128b", "-128b", "-129B", "32767s", "32768S", "2147483647", "2147483648", "-2147483648", "-2147483649",
+		"9223372036854775807L", "9223372036854775808l", "-9223372036854775808L", "1i", "1I", "5f", "5F", "5d", "5D", "1.5", "1.5f", "1.5F", "1.5d", "1.5D", "-1.5", "+1.5", "1.", "1.f", ".5", "-.5",
+		"1e5", "1.5e5", "1.5E5", "1.5e+5", "1.5e-5", "1.5e5f", "1.5e-5d", "1.5e", "1.5ee5", "1.5e5e5", "1.5+5", "1.5-5", "1.5e--5", "1.5e+-5", "1..5", "1.5.5", "1.5x", "1.5fx", "1.5ff",
+		"b", "f", "d", "L", "B", "-", "+", "-b", "+f", "--1", "+-1", "-+1", "1-", "1+", "1b1", "1bb", "1_0", "0x10", "007", "00b", "true", "false", "a", "abc", "a.b", "a-b", "_", ".", "..", "a1", "1a",
+		"1s2", "e5", "E", "1e", "1E5", "Infinity", "NaN", "inf", "1.5inf", "99999999999999999999", "-99999999999999999999", "99999999999999999999L", "1.7976931348623157e309", "1e400f", "3.4028236e38f",
+		"4.9e-324", "1e-400", "0.1f", "16777217f", "9007199254740993d", "a b", "a\"b", "a'b", "a\\b", "a{b", "1 ", " 1", "é", "\x00", "1\x00", "a\xff"} {
+		litCase(o, "literal.fixed", []byte(s))
+	}
+	const alphabet = "0123456789.-+eEbBsSlLfFdDiIxa_"
+	for i, n := 0, o.N(20000, 15); i < n; i++ {
+		t := make([]byte, 1+r.Intn(12))
+		for j := range t {
+			switch {
+			case i%7 == 6:
+				t[j] = byte(r.Next())
+			case r.Intn(3) > 0:
+				t[j] = byte('0' + r.Intn(10))
+			default:
+				t[j] = alphabet[r.Intn(len(alphabet))]
+			}
+		}
+		if t[0] == '"' || t[0] == '\'' {
+			t[0] = 'q'
+		}
+		litCase(o, "literal.random", t)
+	}
+	// exhaustive: all tokens of length <= 3 as lines, all of length <= 5 (thorough 6) in hashed batches
+	a := []byte("01.-+eEbfdLsIx_")
+	var rec func(p []byte)
+	rec = func(p []byte) {
+		if len(p) > 0 {
+			litCase(o, "literal.exhaustive", p)
+		}
+		if len(p) == 3 {
+			return
+		}
+		for _, c := range a {
+			rec(append(p[:len(p):len(p)], c))
+		}
+	}
+	rec(nil)
+	pl := 2
+	if o.Thorough() {
+		pl = 3
+	}
+	var rec2 func(p []byte)
+	rec2 = func(p []byte) {
+		if len(p) == pl {
+			litBatch(o, "literal.exhaustive-batch", a, p, 3)
+			return
+		}
+		for _, c := range a {
+			rec2(append(p[:len(p):len(p)], c))
+		}
+	}
+	rec2(nil)
 }
